@@ -238,7 +238,9 @@ struct StratAcc
     int r = 0;
     if (strat == "sum")
     {
-      for (It it = first; it != last; ++it)
+      // prefix and postfix increments alternate (the postfix result is discarded)
+      int n = 0;
+      for (It it = first; it != last; (n++ % 2) ? (void)++it : (void)it++)
         r += *it;
     }
     else if (strat.rfind("stop", 0) == 0)
@@ -253,18 +255,34 @@ struct StratAcc
     }
     else if (strat == "twice")
     {
-      for (It it = first; it != last; ++it)
+      // every position is dereferenced twice: alternately through the same iterator and through the copy that a
+      // postfix step returns ("peek, then consume": *it; old = it++; *old) — the copy must know it was invoked
+      int n = 0;
+      for (It it = first; it != last;)
       {
         r += *it;
-        r += *it;
+        if (n++ % 2)
+        {
+          r += *it;
+          ++it;
+        }
+        else
+        {
+          It old = it++;
+          r += *old;
+        }
       }
     }
     else if (strat == "rev")
     {
       It it = last;
+      int n = 0;
       while (it != first)
       {
-        --it;
+        if (n++ % 2)
+          --it;
+        else
+          it--;
         r += *it;
       }
     }
@@ -317,6 +335,101 @@ struct StratAcc
   }
 };
 
+// accumulator over void-returning slots: instantiates slot_iterator_buf<T_emitter, void>
+struct VoidAcc
+{
+  std::string strat;
+  VoidAcc() : strat(g_strategy) { g_strategy = "sum"; }
+
+  template<typename It>
+  void operator()(It first, It last) const
+  {
+    if (strat == "sum" || strat.rfind("stop", 0) == 0)
+    {
+      int n = 0;
+      for (It it = first; it != last; (n++ % 2) ? (void)++it : (void)it++)
+        *it;
+    }
+    else if (strat == "twice")
+    {
+      int n = 0;
+      for (It it = first; it != last;)
+      {
+        *it;
+        if (n++ % 2)
+        {
+          *it;
+          ++it;
+        }
+        else
+        {
+          It old = it++;
+          *old;
+        }
+      }
+    }
+    else if (strat == "rev")
+    {
+      It it = last;
+      int n = 0;
+      while (it != first)
+      {
+        if (n++ % 2)
+          --it;
+        else
+          it--;
+        *it;
+      }
+    }
+    else if (strat == "never")
+    {
+      for (It it = first; it != last; ++it)
+      {
+      }
+    }
+    else if (strat == "postinc")
+    {
+      It it = first;
+      while (it != last)
+      {
+        It old = it++;
+        *old;
+      }
+    }
+    else if (strat.size() > 0 && strat[0] == 'w')
+    {
+      It it = first;
+      for (std::size_t i = 1; i < strat.size(); ++i)
+      {
+        char c = strat[i];
+        if (c == 'd')
+        {
+          if (it != last)
+            *it;
+        }
+        else if (c == 'i')
+        {
+          if (it != last)
+            ++it;
+        }
+        else if (c == 'x')
+        {
+          if (it != first)
+            --it;
+        }
+        else if (c == 'c')
+        {
+          if (it != last)
+          {
+            It cp = it;
+            *cp;
+          }
+        }
+      }
+    }
+  }
+};
+
 using SlotI = sigc::slot<int(int)>;
 using SlotV = sigc::slot<void(int)>;
 using SigV = sigc::signal<void(int)>;
@@ -325,6 +438,8 @@ using SigA = sigc::signal<int(int)>::accumulated<StratAcc>;
 using TSigV = sigc::trackable_signal<void(int)>;
 using TSigI = sigc::trackable_signal<int(int)>;
 using TSigA = sigc::trackable_signal<int(int)>::accumulated<StratAcc>;
+using SigAV = sigc::signal<void(int)>::accumulated<VoidAcc>;
+using TSigAV = sigc::trackable_signal<void(int)>::accumulated<VoidAcc>;
 
 enum Flavour
 {
@@ -333,15 +448,17 @@ enum Flavour
   FA_,
   FTV_,
   FTI_,
-  FTA_
+  FTA_,
+  FAV_,
+  FTAV_
 };
 bool fl_void(Flavour f)
 {
-  return f == FV_ || f == FTV_;
+  return f == FV_ || f == FTV_ || f == FAV_ || f == FTAV_;
 }
 bool fl_trackable(Flavour f)
 {
-  return f >= FTV_;
+  return f == FTV_ || f == FTI_ || f == FTA_ || f == FTAV_;
 }
 
 struct SigObj
@@ -377,8 +494,12 @@ auto with_sig(SigObj& g, Fn fn)
       return fn(*static_cast<TSigV*>(g.p));
     case FTI_:
       return fn(*static_cast<TSigI*>(g.p));
-    default:
+    case FTA_:
       return fn(*static_cast<TSigA*>(g.p));
+    case FAV_:
+      return fn(*static_cast<SigAV*>(g.p));
+    default:
+      return fn(*static_cast<TSigAV*>(g.p));
   }
 }
 
@@ -576,8 +697,12 @@ struct Interp
       {
         if (g->fl == FV_)
           dst = SlotV(static_cast<SigV*>(g->p)->make_slot());
-        else
+        else if (g->fl == FTV_)
           dst = SlotV(static_cast<TSigV*>(g->p)->make_slot());
+        else if (g->fl == FAV_)
+          dst = SlotV(static_cast<SigAV*>(g->p)->make_slot());
+        else
+          dst = SlotV(static_cast<TSigAV*>(g->p)->make_slot());
       }
       else
       {
@@ -634,6 +759,10 @@ struct Interp
       f = FTI_;
     else if (s == "TA")
       f = FTA_;
+    else if (s == "AV")
+      f = FAV_;
+    else if (s == "TAV")
+      f = FTAV_;
     else
       return false;
     return true;
@@ -660,8 +789,14 @@ struct Interp
       case FTI_:
         g->p = new TSigI;
         break;
-      default:
+      case FTA_:
         g->p = new TSigA;
+        break;
+      case FAV_:
+        g->p = new SigAV;
+        break;
+      default:
+        g->p = new TSigAV;
         break;
     }
     return g;
